@@ -7,6 +7,7 @@ import (
 	"github.com/LemoFoundationLtd/lemochain-core/common/rlp"
 	"github.com/LemoFoundationLtd/lemochain-core/network/p2p"
 	"sync"
+	"sync/atomic"
 	"time"
 )
 
@@ -291,7 +292,7 @@ func (p *peer) SendDiscover() error {
 		log.Warnf("SendDiscover: rlp failed: %v", err)
 		return err
 	}
-	p.discoverCounter++
+	atomic.AddUint32(&p.discoverCounter, 1)
 	p.conn.SetWriteDeadline(DurShort)
 	if err := p.conn.WriteMsg(p2p.DiscoverReqMsg, buf); err != nil {
 		log.Warnf("SendDiscover to peer: %s failed. disconnect. %v", p.NodeID().String()[:16], err)
@@ -363,5 +364,5 @@ func (p *peer) BadSyncCounter() uint32 {
 
 // DiscoverCounter get discover counter
 func (p *peer) DiscoverCounter() uint32 {
-	return p.discoverCounter
+	return atomic.LoadUint32(&p.discoverCounter)
 }
